@@ -402,12 +402,24 @@ def model_claims():
         return None, out[-3000:]
     p = common.run(["timeout", "300", "coqc", "-Q", ".", "IMB", "Extract/PrintSafeData.v"], cwd=common.COQDIR, timeout=330)
     txt = p.stdout
-    # the value printed is a list of (string * (string * string)): take the string literals in order
-    lits = re.findall(r'"([^"]*)"', txt.split(": list", 1)[0])
-    if p.returncode != 0 or not lits or len(lits) % 3:
+    # two values are printed, each a list of (string * (string * string)): take the string literals in order
+    parts = txt.split(": list")
+    if p.returncode != 0 or len(parts) < 3:
         return None, (txt + p.stderr)[-3000:]
-    claims = set((lits[i], lits[i + 1], lits[i + 2]) for i in range(0, len(lits), 3))
-    return claims, ""
+    out = []
+    for part in parts[:2]:
+        lits = re.findall(r'"([^"]*)"', part)
+        if len(lits) % 3:
+            return None, "unparsable claim table"
+        out.append(set((lits[i], lits[i + 1], lits[i + 2]) for i in range(0, len(lits), 3)))
+    if not out[0]:
+        return None, "empty claim table"
+    global JUNK_OK
+    JUNK_OK = out[1]
+    return out[0] | out[1], ""
+
+
+JUNK_OK = set()
 
 
 def arch_class(var, tmgr_type=None):
@@ -677,6 +689,9 @@ def main(tier, seed):
         confirmations[sig] = conf
         obj = sched_replay_obj(s, d["var"], {"kind": "model-correspondence", "dirty": d, "oracle": conf,
                                              "theorem": "ooo_free_lane_clean / ooo_clean_when_idle (Props/Properties_C13.v)"})
+        if key in JUNK_OK and not conf.get("secret_dependent"):
+            confirmations[sig]["verdict"] = "job-independent garbage, allowed by the model (k_junk)"
+            continue
         if conf.get("secret_dependent"):
             note = ("free lane of %s keeps %s whose content depends on the %s of the completed jobs and is not public output (%s, %s)"
                     % (d["ooo"], d["field"], "key" if conf.get("key_sensitive") else "text", d["var"], s.suite))
